@@ -90,6 +90,21 @@ CORPUS = [
     ("opt_nested", named(("oo", Gate("option", Gate("option", L("u8")))), ("ob", Gate("option", Gate("box", Array(2, L("u8"))))))),
     ("result_arr", Array(2, Named2("Result", [L("u8"), L("i8")]))),
     ("bound_range", named(("lo", Named2("Bound", [L("u8")])), ("r", Named2("RangeFrom", [Named2("RangeTo", [L("u8")])])))),
+    # batch-4 seeded changes: sibling names differing only in ASCII case (different shapes), non-ASCII names on the
+    # longest path, a skipped variant declared before retained ones, defer combined with an explicit mutable getter,
+    # accessors/deny below a flattened node
+    ("case_siblings", named(("i", Array(2, L("u8"))), ("I", L("u8")), ("Kp", L("i16")), ("kp", named(("x", L("u8")),)))),
+    ("unicode_long", named(("größe_üs", named(("é", named(("ñandú", L("u8")),)),)), ("abcdefgh", L("u8")))),
+    ("enum_skip_first", named(("mode", Enum([V("Raw", "u8", skip=True), V("Off"), V("A", L("i32")), V("B", L("i32"))])),
+                              ("n", L("u8")))),
+    ("defer_get_mut", Struct([F("view", L("u32"), defer=True, get_mut=True, validate=True),
+                              F("ro", L("u8"), defer=True, get=True),
+                              F("g", L("u8"))])),
+    ("flat_access", Struct([F("g", Array(2, Struct([F("only", Struct([F("a", L("u8"), get=True, get_mut=True, validate=True),
+                                                                        F("d", L("u8"), deny={"serialize": "no ser", "ref_any": "no ref",
+                                                                                              "deserialize": "no de", "mut_any": "no mut"})]))],
+                                                    flat=True))),
+                            F("z", L("u8"))])),
 
 ]
 
